@@ -17,6 +17,11 @@ import QlibcModel.Str.CopyLemmas
 import QlibcModel.Str.TokLemmas
 import QlibcModel.Str.ReplLemmas
 import QlibcModel.Str.DupLemmas
+import QlibcModel.Str.CommaLemmas
+import QlibcModel.Str.Ip4Lemmas
+import QlibcModel.Str.EmailLemmas
+import QlibcModel.Str.FmtLemmas
+import QlibcModel.Str.UniqueLemmas
 
 namespace Qlibc.Props.C19
 open Qlibc Qlibc.Str
@@ -337,6 +342,65 @@ theorem dup_between_eq (s rest st strest en enrest : Bytes) (hs : NulFree s) (hs
       = .ok ((dupBetween s st en).map (· ++ [0])) :=
   qstrdupBetween_correct s rest st strest en enrest hs hst hen
 
+/-! ### second part: comma number, character tests, IPv4 / e-mail tests, formatted strings
+
+  Models in `Str/ModelMore.lean`, reference definitions in `Str/SpecMore.lean`. -/
+
+/-- `qstr_comma_number(z)` for every `int` (INT_MIN included): no access outside the 15-byte
+    block, which then holds the sign and the magnitude with a comma between groups of three
+    digits counted from the right -/
+theorem comma_number_eq (z : Int) (h1 : -2147483648 ≤ z) (h2 : z < 2147483648) :
+    ∃ b, qstrCommaNumber z = .ok b ∧ b.length = 15 ∧ cstr b = commaInt z :=
+  qstrCommaNumber_correct z h1 h2
+
+/-- the `malloc(14 + 1)` is sufficient: sign, at most ten digits, at most three commas -/
+theorem comma_number_fits (z : Int) (h1 : -2147483648 ≤ z) (h2 : z < 2147483648) :
+    (commaInt z).length + 1 ≤ 15 := by
+  have hlen := decNat_length_le 10 z.natAbs (by omega) (by omega)
+  have hg := group_length (decNat z.natAbs)
+  rw [group_decNat] at hg
+  unfold commaInt
+  split <;> simp <;> omega
+
+/-- `qstrtest(f, str)` = "every character satisfies `f`", for any test function -/
+theorem strtest_eq (p : UInt8 → Bool) (s rest : Bytes) (hs : NulFree s) :
+    qstrtest p (s ++ 0 :: rest) = .ok (strTest p s) := qstrtest_correct p s rest hs
+
+/-- `qstr_is_ip4addr(str)` (on its `strdup` copy: the argument is not modified) is true exactly
+    for four parts separated by single periods, each one to three decimal digits with a value of
+    at most 255 -/
+theorem is_ip4addr_eq (s rest : Bytes) (hs : NulFree s) :
+    qstrIsIp4addr (s ++ 0 :: rest) = .ok (isIp4 s) := qstrIsIp4addr_correct s rest hs
+
+/-- `qstr_is_email(str)` accepts exactly the language `isEmail` describes; in particular
+    `email[i - 1]` is never read at `i = 0` -/
+theorem is_email_eq (s rest : Bytes) (hs : NulFree s) :
+    qstrIsEmail (s ++ 0 :: rest) = .ok (isEmail s) := qstrIsEmail_correct s rest hs
+
+/-- `qstrdupf`: for every formatted text `out` (any length: the 1024-byte block is doubled until
+    it fits) the result is a block of exactly `|out| + 1` bytes holding `out` -/
+theorem dupf_eq (out : Bytes) (ho : NulFree out) :
+    ∃ allocs, qstrdupf out = .ok (out ++ [0], allocs) := qstrdupf_correct out ho
+
+/-- `qstrcatf(str, …)`: the old content `d` is kept and the formatted text and a terminator are
+    stored right behind it — exactly `|out| + 1` bytes starting at the old terminator; this is
+    inside the caller's block iff it had `|out|` spare bytes behind the old terminator, otherwise
+    `strcat` writes past its end (`Fault.oob`) -/
+theorem catf_eq (d drest out : Bytes) (hd : NulFree d) (ho : NulFree out) :
+    ∃ allocs, qstrcatf (d ++ 0 :: drest) out
+      = if out.length ≤ drest.length
+        then .ok (d ++ out ++ 0 :: drest.drop out.length, allocs)
+        else .error .oob := qstrcatf_correct d drest out hd ho
+
+/-- `qstrunique` returns `qhex_encode` of a 16-byte digest: 32 lowercase hexadecimal digits,
+    whatever the digest is -/
+theorem unique_shape (digest : Bytes) (h : digest.length = 16) :
+    (Qlibc.Encode.hexEncode digest).length = 32 ∧
+    (Qlibc.Encode.hexEncode digest).all isHexLowerB = true := by
+  have := hexEncode_shape digest
+  rw [h] at this
+  exact this
+
 /-! ### non-vacuity -/
 
 example : NulFree [32, 97, 32] := by decide
@@ -355,6 +419,16 @@ example : replaceAll [97, 97] [98] [97, 97, 97, 97, 97] = [98, 98, 97] := by
 example : replaceChars [97, 98] [95] [97, 120, 98] = [95, 120, 95] := by decide
 example : dupBetween [91, 97, 93] [91] [93] = some [97] := by decide
 example : maxLenS 5 2 3 = 7 := by decide
+example : commaInt (-1234567) = [45, 49, 44, 50, 51, 52, 44, 53, 54, 55] := by
+  simp [commaInt, commaNat, decNat, digitCh]
+example : commaInt (-2147483648) = [45, 50, 44, 49, 52, 55, 44, 52, 56, 51, 44, 54, 52, 56] := by
+  simp [commaInt, commaNat, decNat, digitCh]
+example : isIp4 [49, 50, 55, 46, 48, 46, 48, 46, 49] = true := by decide     -- 127.0.0.1
+example : isIp4 [49, 46, 50, 46, 51, 46, 120] = false := by decide            -- 1.2.3.x
+example : isIp4 [50, 53, 54, 46, 49, 46, 49, 46, 49] = false := by decide     -- 256.1.1.1
+example : isIp4 [49, 46, 50, 46, 51, 46] = false := by decide                 -- 1.2.3.
+example : isEmail [97, 98, 64, 99, 46, 100] = true := by decide               -- ab@c.d
+example : isEmail [97, 98, 99, 100, 64, 46, 101] = false := by decide         -- abcd@.e
 example : ∃ b, qstrtrim ([32, 97, 32] ++ 0 :: []) = .ok b ∧ cstr b = trim [32, 97, 32] :=
   trim_eq [32, 97, 32] [] (by decide)
 
